@@ -34,6 +34,13 @@ fn main() {
     let json = match engine {
         "sim" => sim(id, &tier, seed, threads, only, shard),
         "pure" => vharness::pure::run(id, &tier, seed, threads),
+        "miri" => {
+            if matches!(id, "C10" | "C11" | "C18") {
+                vharness::pure::run(id, "miri", seed, 2)
+            } else {
+                vharness::props::miri_slice(id, seed)
+            }
+        }
         _ => {
             eprintln!("unknown engine {engine}");
             std::process::exit(2);
